@@ -57,6 +57,9 @@ def handle(req, joblib, MF, V):
             func = getattr(mod, "f_%d" % req["f"])
         elif is_async:
             func = getattr(mod, "a_%d" % req["f"])
+        elif req["carrier"] in ("pA", "pB"):
+            import functools
+            func = functools.partial(getattr(mod, "f_%d" % req["f"]), "bound-" + req["carrier"])
         else:
             func = getattr(mod.K("A" if req["carrier"] == "mA" else "B"), "m_%d" % req["f"])
         if req.get("verbose"):
